@@ -157,10 +157,15 @@ let judge_wrap id wc (arg : disj list) (out : disj list) =
         let relax_guard = wc.dom = "C" in
         let wc' = if relax_guard then { wc with guard = (match wc.guard with
                      | Some g -> Some (List.map (fun k -> if k.ckd = GT then { k with ckd = GE } else k) g) | None -> None) } else wc in
-        (match timed (fun () ->
-            let u = model wc' (List.hd arg).dc false in
-            let os = sys_of_cons o.dc in
-            List.for_all (fun s -> incl_sys (nat (wc.dim + 1)) s os = Some true) u, List.length u) with
+        let included patched =
+          let u = model wc' (List.hd arg).dc patched in
+          let os = sys_of_cons o.dc in
+          List.for_all (fun s -> incl_sys (nat (wc.dim + 1)) s os = Some true) u, List.length u in
+        (match timed (fun () -> match included false with
+                                | (true, n) -> (true, n)
+                                | (false, _) ->
+                                    (* a library in which the defect of the collective path is fixed follows the patched model *)
+                                    (match included true with (true, n) -> bump stats "model_patched_included"; (true, n) | r -> r)) with
          | Some (true, n) -> bump stats "model_included"; bumpn stats "model_disjuncts" n
          | Some (false, _) ->
              (* legitimate only for the known defect (the as-is model then loses points itself, never the reverse) *)
